@@ -479,8 +479,8 @@ def run(ctx):
         "depth_bound": depth,
         "max_depth_with_new_state": md,
         "rule": ("16 of the 40" if ctx.quick else "all 40") + " closed systems = profile advertising {same URL, other path for a banking-only profile without closing statements, other host, a different URL per service, a server that re-sends its profile with an unchanged date but an alternating service URL} x server cookie policy {none, first response, every response} x second client "
-        "{same server, other server, same server without a cookie jar (persist_cookies=False)}; per system BFS over all event sequences (36 events: 2 clients x {profile: dryrun/normal; statements, accounts, tax: dryrun/skip_profile/"
-        "normal; closing-statement, credit-card and empty statement requests: normal; each of the four kinds with a server that takes the request and never answers}) to the depth bound, states de-duplicated on (both cookie jars, cached profile files, server cookie flags) - every field future requests can depend on; every "
+        "{same server, other server, same server without a cookie jar (persist_cookies=False)}; per system BFS over all event sequences (48 events: 2 clients x {profile: dryrun/normal; statements, accounts, tax: dryrun/skip_profile/"
+        "normal; closing-statement, credit-card and empty statement requests: normal; each of the four kinds with a server that takes the request and never answers; profile, statements, tax with a server that answers 307 or 308 pointing to another host}) to the depth bound, states de-duplicated on (both cookie jars, cached profile files, server cookie flags) - every field future requests can depend on; every "
         "transition executes the real OFXClient against the scripted server and checks that event's HTTP exchanges against the model (count, method, URL, headers, anonymous vs "
         "real credentials, exact cookie set, returned bytes)",
         "exhaustive": True,
